@@ -135,7 +135,7 @@ impl<'a, 'b> Generator<'a, 'b> {
                     "__BLOB{{ {} }}",
                     fields
                         .iter()
-                        .map(|(f, v)| format!("{} = {}", f, self.expand(v)))
+                        .map(|(f, v)| format!("[\"{}\"] = {}", f, self.expand(v)))
                         .collect::<Vec<_>>()
                         .join(", ")
                 ),
@@ -241,7 +241,7 @@ impl<'a, 'b> Generator<'a, 'b> {
                 IR::Access(t, a, f) => {
                     if self.usage_count.get(t).unwrap_or(&0) > &0 {
                         let a = self.expand(a);
-                        write!(self.out, "local {} = {}.{}", t.format(), a, f);
+                        write!(self.out, "local {} = {}[\"{}\"]", t.format(), a, f);
                     }
                 }
 
@@ -273,7 +273,7 @@ impl<'a, 'b> Generator<'a, 'b> {
                     if self.usage_count.get(t).unwrap_or(&0) > &0 {
                         let t = self.expand(t);
                         let c = self.expand(c);
-                        write!(self.out, "{}.{} = {}", t, f, c);
+                        write!(self.out, "{}[\"{}\"] = {}", t, f, c);
                     }
                 }
 
